@@ -78,6 +78,25 @@ def _sparse_bins(obj, chain):
     return sum(len(n.bins) for n in level)
 
 
+def _sparse_templates(obj, chain):
+    """Do the innermost sparse containers on the path hold a template (value) to validate new bins against?"""
+    from ..invariants import _kids
+
+    types = list(chain[1:])
+    sparse_levels = [i for i, t in enumerate(types) if t in ("SparselyBin", "Categorize")]
+    if not sparse_levels:
+        return False
+    last = sparse_levels[-1]
+    level = [obj] if obj.name == types[0] else []
+    for i in range(last):
+        nxt = [k for n in level for _, k in _kids(n) if k.name == types[i + 1]]
+        # a sparse level without bins: look at its template instead
+        if not nxt:
+            nxt = [n.value for n in level if getattr(n, "value", None) is not None and n.value.name == types[i + 1]]
+        level = nxt
+    return bool(level) and all(getattr(n, "value", None) is not None for n in level)
+
+
 def _own(n):
     """The parameters of a node itself (not of its children): what its own merge can compare before touching anything."""
     ch = n.get("ch")
@@ -85,13 +104,13 @@ def _own(n):
             tuple(sorted(ch)) if isinstance(ch, dict) else (len(ch) if ch is not None else None))
 
 
-def check_merge(sa, sb, ha, hb, label, reload_right=False):
+def check_merge(sa, sb, ha, hb, label, reload_right=False, derive=None):
     """a (spec sa, history ha) and b (spec sb, history hb) are incompatible: every merge must raise and leave
     both untouched."""
     import histogrammar as hg
 
     args = {"sa": sa, "sb": sb, "ha": core.show_evs(ha), "hb": core.show_evs(hb), "label": label,
-            "reload_right": reload_right}
+            "reload_right": reload_right, "derive": derive}
     out = []
     chain = parent_of_difference(sa, sb)
     if a_is_foreign(sa, sb):
@@ -115,6 +134,15 @@ def check_merge(sa, sb, ha, hb, label, reload_right=False):
             b = core.mk(sb, hb)
         except Exception:
             return out
+        if derive:
+            # the left tree's operand is itself the result of earlier algebra on reloaded partials: what such a result
+            # declares about its structure must still be what its operands declared
+            try:
+                ra = hg.Factory.fromJson(a.toJson())
+                a = {"R(a)+R(a)": lambda: ra + hg.Factory.fromJson(a.toJson()), "R(a).copy()": lambda: ra.copy(),
+                     "R(a)*2": lambda: ra * 2, "R(a).zero()": lambda: ra.zero()}[derive]()
+            except Exception:
+                return out
         if reload_right:
             if op in ("a+b", "a+=b"):
                 b = hg.Factory.fromJson(b.toJson())
@@ -122,6 +150,9 @@ def check_merge(sa, sb, ha, hb, label, reload_right=False):
                 a = hg.Factory.fromJson(a.toJson())
         da, db = a.toJson(), b.toJson()
         ga, gb = C.digest(a, strict=False), C.digest(b, strict=False)
+        # (looked at before the operation: a silent in-place merge changes what the left operand holds)
+        left_, right_ = (a, b) if op in ("a+b", "a+=b") else (b, a)
+        comparable = bool(sparse_above) and bool(_sparse_bins(right_, chain)) and _sparse_templates(left_, chain)
         raised = None
         try:
             if op == "a+b":
@@ -143,8 +174,9 @@ def check_merge(sa, sb, ha, hb, label, reload_right=False):
             if sparse_above:
                 # with bins on the right there is something to compare with this side's template (or bins): a silent merge is
                 # then a different - and unlisted - matter than two sides that have nothing to compare
-                right = b if op in ("a+b", "a+=b") else a
-                if _sparse_bins(right, chain) and "no shared key" in under:
+                # (a left operand without templates - reloaded, or derived from reloads - has nothing to validate against:
+                # that is the listed finding, whatever the right side holds)
+                if comparable and "no shared key" in under:
                     under_ = under.replace("no shared key", "bins on the right but no shared key")
             out.append(FW.violation(PROP, "merge", "%s under %s" % (opname, under_) if sparse_above else
                                     "%s at %s [%s]" % (opname, under, lab),
@@ -255,6 +287,12 @@ def _tree(task):
         if tier != "quick":
             acc.add(check_merge(spec, ns, h1, h1, label, reload_right=True))
             acc.n("merge_attempts", 4)
+        if not any(n.get("tr") for _, _, n in S.node_ids(spec)):
+            for derive in ("R(a)+R(a)", "R(a).copy()", "R(a)*2", "R(a).zero()"):
+                for ha, hb in states[:2]:
+                    acc.add(check_merge(spec, ns, ha, hb, label, derive=derive))
+                    acc.n("merge_attempts", 4)
+                    acc.n("merge_attempts_with_a_derived_operand", 4)
     if spec["t"] == "Stack" and not any(n.get("tr") for _, _, n in S.node_ids(spec)):
         for case in ("ordinary-vs-built", "ordinary-vs-reloaded-built", "built-vs-longer-built"):
             for ha, hb in states:
@@ -327,5 +365,5 @@ def replay(driver, args):
     if driver == "built":
         return check_built(args["spec"], core.unshow_evs(args["ha"]), core.unshow_evs(args["hb"]), args["case"])
     vs = check_merge(args["sa"], args["sb"], core.unshow_evs(args["ha"]), core.unshow_evs(args["hb"]), args["label"],
-                     args.get("reload_right", False))
+                     args.get("reload_right", False), args.get("derive"))
     return vs
